@@ -139,6 +139,28 @@ static void lsb_case(int ia, int ib) {
   vh_post(&e);
 }
 
+/* m4ri_word_to_str into a buffer of exactly the documented size (64 + 63/4 + 1 = 80 bytes with colons, 65 without),
+ * with guard bytes behind it */
+static void word_to_str_case(int colon, word w) {
+  char buf[96];
+  memset(buf, 0x7e, sizeof buf);
+  int need = colon ? 64 + 63 / 4 + 1 : 65;
+  vh_ev_t e;
+  vh_begin(&e, "word_to_str");
+  vh_pi(&e, "colon", colon); vh_pi(&e, "L_w", wl(w));
+  vh_pre(&e);
+  if (VH_CALL(&e)) m4ri_word_to_str(buf, w, colon);
+  VH_END(&e);
+  int guard = 1;
+  for (int i = need; i < (int)sizeof buf; i++) if (buf[i] != 0x7e) guard = 0;
+  rci_t s[96];
+  int len = 0;
+  while (len < need && buf[len]) { s[len] = (unsigned char)buf[len]; len++; }
+  vh_pi(&e, "guard", guard); vh_pi(&e, "terminated", len < need);
+  vh_pa(&e, "s", s, len);
+  vh_post(&e);
+}
+
 int fam_kernels(const vh_args_t *a) {
   long idx = 0;
   vh_nofork = 1; /* pure functions, tiny cases */
@@ -153,5 +175,7 @@ int fam_kernels(const vh_args_t *a) {
   for (int t = 0; t < 200; t++, idx++) if (VH_SHARD(a, idx)) { vh_case_seed(a, idx); swap_case(1, 0); }
   for (int t = 0; t < (a->tier ? 3000 : 600); t++, idx++) if (VH_SHARD(a, idx)) { vh_case_seed(a, idx); spread_case(); }
   for (int ia = 0; ia <= 64; ia++) for (int ib = 0; ib <= 64; ib++, idx++) if (VH_SHARD(a, idx)) { vh_case_seed(a, idx); lsb_case(ia, ib); }
+  for (int t = 0; t < 140; t++, idx++)
+    if (VH_SHARD(a, idx)) { vh_case_seed(a, idx); word_to_str_case(t % 2, t < 128 ? (word)1 << (t / 2) : (t < 132 ? 0 : (t < 136 ? ~(word)0 : vh_rand()))); }
   return 0;
 }
